@@ -151,6 +151,18 @@ class VisitorHooks(Hooks):
         self.row = row
         self.nodeparam = nodeparam
 
+    def resolve(self, expr, st):
+        # type(node) is K / type(node) == K
+        if isinstance(expr, ast.Compare) and len(expr.ops) == 1 and isinstance(expr.ops[0], (ast.Is, ast.Eq, ast.IsNot, ast.NotEq)):
+            sides = [expr.left, expr.comparators[0]]
+            for a, b in (sides, sides[::-1]):
+                if isinstance(a, ast.Call) and u(a.func) == "type" and len(a.args) == 1 and u(a.args[0]) == self.nodeparam:
+                    c = self.repo.resolve_class(self.repo.mod("finder"), u(b))
+                    if c is not None:
+                        same = c is self.cls
+                        return same if isinstance(expr.ops[0], (ast.Is, ast.Eq)) else not same
+        return NOTHING
+
     def on_call(self, call, ftext, args, kwargs, st):
         if ftext.startswith(self.nodeparam + ".") and ftext.split(".")[-1] in KIND_METHODS and not args:
             return self.row[ftext.split(".")[-1]]
@@ -611,7 +623,7 @@ def r5(ctx):
             stores = [e for e in p.effects if e[0] == "store" and e[1] == f"{table_attr}[{kp}]"]
             dels = [e for e in p.effects if e[0] == "del" and e[1] == f"{table_attr}[{kp}]"]
             others = [e for e in p.effects if e not in stores and e not in dels]
-            if others:
+            if others and not (name == "undefine" and present is None):
                 msg = f"unexpected effects {others}"
                 break
             if name == "define":
@@ -625,7 +637,16 @@ def r5(ctx):
                         msg = f"defining an already defined name corrupts the table: {p.describe()}"
                         break
             elif name == "undefine":
-                if present is True or present is None:
+                if present is None:
+                    popped = [e for e in others if e[0] == "call" and e[1] == f"{table_attr}.pop" and len(e) == 4 and vtext(e[2]) == kp]
+                    if not (len(popped) == 1 and not dels and not stores):
+                        msg = f"deletes without testing membership: #undef of a name that is not defined (legal C) raises KeyError: {p.describe()}"
+                        break
+                    others = [e for e in others if e not in popped]
+                    if others:
+                        msg = f"unexpected effects {others}"
+                        break
+                elif present is True:
                     if not (len(dels) == 1 and not stores):
                         msg = f"a defined name is not deleted: {p.describe()}"
                         break
@@ -663,17 +684,20 @@ def r5(ctx):
     un = repo.cls("preprocessor", "UndefNode").find_method("evaluate_for_platform")
     for f, meth in ((dn, "define"), (un, "undefine")):
         key = f"{f.key}:calls:{meth}"
-        calls = [c for c in f.calls() if isinstance(c.func, ast.Attribute) and c.func.attr == meth]
-        ok = len(calls) == 1 and u(calls[0].func.value) == "kwargs['platform']" and u(calls[0].args[0]) == "self.identifier.token"
-        if ok and meth == "define":
-            env = {n.targets[0].id: n.value for n in walk_no_nested(f.node) if isinstance(n, ast.Assign) and isinstance(n.targets[0], ast.Name)}
-            v = calls[0].args[1]
-            v = env.get(v.id, v) if isinstance(v, ast.Name) else v
-            ok = u(v) == "make_macro(self.identifier, self.args, self.value)"
-            if not ok:
-                ctx.violation(key, f"macro stored is {u(v)}, expected make_macro(self.identifier, self.args, self.value)", f.loc())
-                continue
-        ctx.check(ok, key, f"must call platform.{meth}(self.identifier.token, ...) exactly once on the platform it was given", f.loc())
+        msg = None
+        for p in ev.paths(f.node):
+            calls = [e for e in p.effects if e[0] == "call" and e[1].endswith("." + meth)]
+            if len(calls) != 1:
+                msg = f"platform.{meth} is called {len(calls)} times on path {p.describe()} (the directive must take effect whenever it is reached)"
+                break
+            e = calls[0]
+            if e[1] != f"kwargs['platform'].{meth}" or vtext(e[2]) != "self.identifier.token":
+                msg = f"calls {e[1]}({', '.join(vtext(a) for a in e[2:])}), expected kwargs['platform'].{meth}(self.identifier.token, ...)"
+                break
+            if meth == "define" and vtext(e[3]) != "make_macro(self.identifier, self.args, self.value)":
+                msg = f"macro stored is {vtext(e[3])}, expected make_macro(self.identifier, self.args, self.value)"
+                break
+        ctx.check(msg is None, key, msg or "", f.loc())
     # --- return-value table of evaluate_for_platform
     base = node_base(repo)
     n_rows = 0
